@@ -22,6 +22,7 @@ import z3
 Z = z3
 
 _UF = {}
+_DIV0 = 0
 
 
 def uf(name, arity=1):
@@ -216,7 +217,11 @@ def s_div(a, b):
     a, b = to_real(a), to_real(b)
     if is_conc(b):
         if b == 0:
-            raise Unsupported("division by concrete zero")
+            # x/0 is inf/nan in floating point: modelled as an arbitrary (poison) real; any obligation that can
+            # observe it becomes sat and is then decided by replay on the real code
+            global _DIV0
+            _DIV0 += 1
+            return z3.Real(f"div0!{_DIV0}")
         if is_conc(a):
             return a / b
         if b == 1:
